@@ -12,7 +12,7 @@ until past the heartbeat bound (table must be empty, one disconnect each).
 import itertools
 
 from vf import report
-from vf.explore import digest, parallel
+from vf.explore import core, digest, parallel
 from vf.vworld import base, peer
 from vf.checks.c12_admission import snapshot, RejectOnHeader
 
@@ -249,6 +249,72 @@ def run_history(impl, hist, out, first=None):
         w.teardown()
 
 
+
+# ------------------------------------------------------------------ user data under concurrent handlers
+
+class UserData(core.Scenario):
+    """Two (three) live sessions whose handlers use session() / save_session() / get_session() at the same time:
+    whatever the interleaving, each session ends up with exactly the data saved for it."""
+    horizon = 0.0
+
+    def build(self):
+        p = self.params
+        w = self.world = peer.make_world(p['impl'], server_kwargs=dict(ping_interval=50, ping_timeout=50))
+        self.sids = [peer.sid_of(peer.open_polling(w)) for _ in range(p['n'])]
+        self.calls = []
+        self.scripts = []
+        for i, ops in enumerate(p['ops']):
+            sid = self.sids[i]
+            sc_ = []
+            for k, op in enumerate(ops):
+                def fire(sc, op=op, sid=sid, i=i, k=k):
+                    if op == 'ctx':
+                        c = sc.world.call('session_ctx', sid, {'owner': i, 'k%d' % k: i})
+                    elif op == 'save':
+                        c = sc.world.call('save_session', sid, {'owner': i, 'k%d' % k: i})
+                    else:
+                        c = sc.world.call('get_session', sid)
+                    sc.calls.append((i, op, c))
+                sc_.append(core.Action('%s(%d)' % (op, i), fire))
+            self.scripts.append(sc_)
+
+    def finish(self):
+        w = self.world
+        w.run()
+        self._obs = []
+        for i, op, c in self.calls:
+            if not c.done or c.exc:
+                self.flag('api_call_failed', '%s on live session %d: done=%s exc=%r' % (op, i, c.done, c.exc), trigger='concurrent_user_data')
+            elif isinstance(c.result, dict) and c.result.get('owner', i) != i:
+                self.flag('user_data_crossed', '%s on session %d returned the data of session %r: %r' % (op, i, c.result.get('owner'), c.result),
+                          trigger='concurrent_user_data')
+        for i, sid in enumerate(self.sids):
+            g = w.call('get_session', sid)
+            w.run()
+            data = g.result if g.done and not g.exc else None
+            self._obs.append(report.dumps(data, sort_keys=True))
+            wrote = any(op in ('ctx', 'save') for op in self.params['ops'][i])
+            if not isinstance(data, dict) or (data and data.get('owner') != i) or (wrote and not data):
+                self.flag('user_data_crossed' if data else 'user_data_lost',
+                          'after concurrent handlers, the data of session %d is %r (each handler saved {owner: its own index})' % (i, data),
+                          trigger='concurrent_user_data')
+            for j, other in enumerate(self.sids):
+                if j < i and data is not None and g.result is getattr(self, '_dicts', {}).get(j):
+                    self.flag('user_data_shared', 'sessions %d and %d share one data object' % (j, i), trigger='concurrent_user_data')
+            self.__dict__.setdefault('_dicts', {})[i] = g.result
+
+    def observation(self):
+        return self._obs
+
+
+def userdata_params():
+    ps = []
+    for impl in ('sync', 'async'):
+        for ops in ([['ctx'], ['ctx']], [['ctx', 'ctx'], ['ctx']], [['ctx'], ['save']], [['ctx'], ['get']],
+                    [['save', 'get'], ['ctx']], [['ctx'], ['ctx'], ['ctx']]):
+            ps.append({'impl': impl, 'n': len(ops), 'ops': ops, '_free_switch': True})
+    return ps
+
 def _work(chunk):
     out = []
     n = 0
@@ -298,6 +364,15 @@ def run(ctx):
         steps += stp
         for v in vs:
             rep.add(report.Violation.from_json(v))
+    ups = userdata_params()
+    ust, uviols, _, ugate = core.run_search(UserData, ups, 2, ctx.workers, ctx.seed)
+    for v in uviols:
+        pr = v['params']
+        rep.add(report.Violation(
+            dict({'impl': pr['impl'], 'kind': v['kind']}, **v['sig']),
+            '[%s ops=%r] %s (choices=%s)' % (pr['impl'], pr['ops'], v['text'], ''.join(map(str, v['choices']))),
+            {'harness': 'userdata', 'params': pr, 'choices': v['choices']}, weight=(v['dev'], len(v['choices']))))
+    n += ust.executions
     rep.coverage = {
         'states': len(digs), 'transitions': steps, 'traces_validated_against_impl': n,
         'samples': [{'history': ['open', 'half_upgrade', 'vanish']}, {'history': ['open', 'save', 'open', 'disconnect_api']},
@@ -307,9 +382,11 @@ def run(ctx):
                 'enabled are pruned) plus one complete seed-chosen slice one level deeper, plus every history of <= 3 (thorough 4) '
                 'actions over %r started from the prepared state "first PING outstanding" (ping_interval=2); each followed by API '
                 'probes with never-issued / rejected / disconnected ids, two monitor sweeps and silence past the heartbeat bound; '
-                'both servers. states = distinct canonical digests of the world reached by the histories (before the epilogue); '
+                'both servers; plus a schedule search (free switching, <= 2 preemptions, scheduling points between creating, entering and leaving the session() context) over two / three sessions whose handlers use session(), save_session() and get_session() at the same time: each session keeps exactly its own data. states = distinct canonical digests of the world reached by the histories (before the epilogue); '
                 'transitions = scheduler steps executed; traces = enabled histories.' % (depth, ACTIONS, ACTIONS2),
         'exhaustive': True, 'bound_completed': depth, 'violating_cases_total': nv,
+        'concurrent_user_data': {'scenarios': len(ups), 'executions': ust.executions, 'distinct_outcomes': len(ust.outcomes),
+                                 'deviation_bound': 2, 'caps_hit': ust.caps, 'determinism_gate': ugate},
     }
     rep.assumptions = [
         'ping_interval=10, ping_timeout=1 so that two monitor sweeps fit before any heartbeat deadline; default schedule',
@@ -320,6 +397,13 @@ def run(ctx):
 
 def replay(ctx, payload):
     r = payload['replay']
+    if r.get('harness') == 'userdata':
+        ex = core.execute(UserData, r['params'], r['choices'], want_labels=True)
+        for lab in ex.labels:
+            print('  ', lab)
+        for v in ex.violations:
+            print('REPLAY VIOLATION:', v)
+        return 1 if ex.violations else 0
     out = []
     print('enabled:', run_history(r['impl'], tuple(r['history']), out))
     for v in out:
